@@ -208,6 +208,11 @@ func genHTMLDoc(r *rng, textTags []string, wide bool) (string, []gTok) {
 	g := &htmlGen{r: r, textTags: textTags, wide: wide}
 	n := 1 + r.n(8)
 	lastText := false
+	// a byte order mark (or other invisible characters) in front of the first tag is text like any other
+	if r.p(8) {
+		g.plain(2, r.pick([]string{"\uFEFF", "\uFEFF\n", "\u200B", "\uFEFF\uFEFF ", "\u2060x"}))
+		lastText = true
+	}
 	for i := 0; i < n; i++ {
 		k := r.n(12)
 		if k <= 2 && !lastText {
